@@ -72,5 +72,7 @@ func (e *Enc) heapWFAxiom(name, key string, alloc Term) string {
 	for _, p := range paths {
 		cs = append(cs, fmt.Sprintf("(>= %s %s)", p, alloc))
 	}
-	return fmt.Sprintf("(assert (forall ((wf.r Int) (wf.i Int)) (! %s :pattern (%s))))", and(cs...), cell)
+	// only cells of objects that exist in that state: a callee that allocates
+	// describes its fresh objects as (so far unconstrained) cells below the mark
+	return fmt.Sprintf("(assert (forall ((wf.r Int) (wf.i Int)) (! (=> (>= wf.r %s) %s) :pattern (%s))))", alloc, and(cs...), cell)
 }
